@@ -69,11 +69,12 @@ ResPool == <<
   [name |-> "r1", aliases |-> {"al1"}, redirectable |-> TRUE, perm |-> 0, kind |-> "text/plain", content |-> "r1"],
   [name |-> "r2", aliases |-> {}, redirectable |-> TRUE, perm |-> 0, kind |-> "application/javascript", content |-> "r2"],
   [name |-> "al1", aliases |-> {}, redirectable |-> TRUE, perm |-> 0, kind |-> "text/plain", content |-> "al1"],
-  [name |-> "p1", aliases |-> {}, redirectable |-> TRUE, perm |-> 1, kind |-> "text/plain", content |-> "p1"]
+  [name |-> "p1", aliases |-> {}, redirectable |-> TRUE, perm |-> 1, kind |-> "text/plain", content |-> "p1"],
+  [name |-> "yy", aliases |-> {"al1"}, redirectable |-> TRUE, perm |-> 0, kind |-> "text/plain", content |-> "yy"]
 >>
 ResSeq(st) == [i \in DOMAIN st |-> ResPool[st[i]]]
 StoreNow == EffectiveStore(ResSeq(store))
-UseChoices == {<<>>, <<1, 2>>, <<3, 1>>, <<1, 3, 4>>, <<2>>}
+UseChoices == {<<>>, <<1, 2>>, <<3, 1>>, <<1, 3, 4>>, <<2>>, <<1, 5>>, <<5, 1>>}
 PoolX == Pool
 InitRules == IF InitSet = "full" THEN <<1, 2, 3, 4, 5, 6, 7, 8, 10, 11, 23, 24>>
              ELSE IF InitSet = "res" THEN <<15, 16, 17, 18, 19, 13, 3>> ELSE <<3, 5, 7, 13>>
